@@ -68,7 +68,7 @@ PROPS = {
     },
     'C08': {
         'coq': ['theories/SyncFut/PropsC08.vo', 'theories/Inst/C08_now.vo'],
-        'profiles': [prof('fsync', (100, 20), (2500, 60))],
+        'profiles': [prof('fsync', (100, 20), (2500, 60)), prof('progs:cancel.progs', (0, 400), (0, 6000))],
         'monitors': ['C08', 'C01', 'C02', 'C05'], 'liveness': True, 'panics': True,
         'trusted_base': ['SyncFut model (coq/theories/SyncFut/Model.v): hand-written; the queue abstracted as one-at-a-time FIFO execution with the slot job possibly suspended (justified by C01/C02), the queue runner excluded while the polling task drains (justified by the ownership invariant); tied by translator facts and the run-time oracles'],
         'assumptions': ['terminal-state form of "releases the queue" (no termination measure); a hand-written future that still owns captures after returning Ready would release them outside the slot (Desync::future_sync wraps the job in an async block, so this cannot happen through the safe API)'],
@@ -123,7 +123,7 @@ PROPS = {
     'C14': {
         'correspondence': CORR_L1,
         'coq': ['theories/Props/C14.vo', 'theories/Inst/C14_now.vo'],
-        'profiles': [prof('drop', (60, 15), (1500, 60)), prof('sync', (40, 10), (800, 40)), prof('fsync', (100, 20), (1500, 60)), prof('pipedrop', (30, 10), (400, 40), extra=['--max-steps', '30000'])],
+        'profiles': [prof('drop', (60, 15), (1500, 60)), prof('sync', (40, 10), (800, 40)), prof('fsync', (100, 20), (1500, 60)), prof('progs:cancel.progs', (0, 400), (0, 6000)), prof('pipedrop', (30, 10), (400, 40), extra=['--max-steps', '30000'])],
         'monitors': ['C14', 'C05', 'C01', 'C08', 'C02'], 'liveness': False, 'panics': True,
         'trusted_base': L1_TRUST + ['memory as ghost state: the model speaks about WHEN closures, values and job storage are used, not about Rust-level aliasing or layout'],
         'assumptions': ['PARTIAL BY NATURE: proves the lifetime protocol the unsafe sites rely on (erased sync jobs never outlive their call, closures run at most once, nothing runs after the free operation); absence of undefined behaviour outside the protocol is not provable here; canary payloads (dead flag, drop counter, wrong-object check, concurrent-modification canary) are checked in every profile; no AddressSanitizer build is part of the check'],
